@@ -366,7 +366,9 @@ Step(e) ==
               \* C14: eventually reclaimed, once
               \cup FlagS("C14", ~e.final \/ ~cfg.cb \/ \A v \in expiredLong : Get0(exitN, v) = 1,
                                "an entry whose TTL elapsed long ago was never released through OnExit",
-                               IF \A v \in expiredLong : Get0(exitN, v) = 1 \/ HashOfK(vkey[v]) \in lateAdd THEN "F5" ELSE "")
+                               IF \A v \in expiredLong : Get0(exitN, v) = 1 \/ HashOfK(vkey[v]) \in lateAdd THEN "F5"
+                               ELSE IF \A v \in expiredLong : Get0(exitN, v) = 1 \/
+                                         \E k2 \in keysSeen : k2 # vkey[v] /\ HashOfK(k2) = HashOfK(vkey[v]) THEN "F9" ELSE "")
               \cup Flag("C14", ~e.final \/ ~cfg.cb \/ ~cfg.ample \/ \A v \in expiredLong : Get0(exitN, v) # 1 \/ Get0(evictN, v) + Get0(rejectN, v) = 1
                                    \/ vkey[v] \in delKeys \/ \E u \in DOMAIN vkey : u # v /\ vkey[u] = vkey[v],
                                "an expired entry was released without OnEvict")
